@@ -278,25 +278,49 @@ impl LocalNode {
     /// reference to that slot, or gives up with `None` if all the slots are currently full.
     #[inline]
     pub(crate) fn new_fast(&self, ptr: usize) -> Option<&'static Debt> {
-        let node = &self.node.get().expect("LocalNode::with ensures it is set");
+        let node = self.node();
         debug_assert_eq!(node.in_use.load(Relaxed), NODE_USED);
         node.fast.get_debt(ptr, &self.fast)
     }
 
     /// Initializes a helping slot transaction.
     ///
-    /// Returns the generation (with tag).
-    pub(crate) fn new_helping(&self, ptr: usize) -> usize {
-        let node = &self.node.get().expect("LocalNode::with ensures it is set");
+    /// Returns the generation (with tag) and a flag if the node should be discarded (by
+    /// [`discard_node`][LocalNode::discard_node]) once the transaction is over.
+    pub(crate) fn new_helping(&self, ptr: usize) -> (usize, bool) {
+        let node = self.node();
         debug_assert_eq!(node.in_use.load(Relaxed), NODE_USED);
-        let (gen, discard) = node.helping.get_debt(ptr, &self.helping);
-        if discard {
-            // Too many generations happened, make sure the writers give the poor node a break for
-            // a while so they don't observe the generation wrapping around.
+        node.helping.get_debt(ptr, &self.helping)
+    }
+
+    /// Gives up the current node and sends it to a cooldown.
+    ///
+    /// Too many generations happened, make sure the writers give the poor node a break for a
+    /// while so they don't observe the generation wrapping around.
+    ///
+    /// This must wait until the helping transaction that noticed the overflow is over (confirmed
+    /// and its debt paid back) ‒ the transaction still needs the node and the node can get claimed
+    /// by another thread once it is in the cooldown. The thread simply finds *a* node next time it
+    /// needs one.
+    pub(crate) fn discard_node(&self) {
+        if let Some(node) = self.node.take() {
             node.start_cooldown();
-            self.node.take();
         }
-        gen
+    }
+
+    /// The node of this thread.
+    ///
+    /// It is usually already set by [`with`][LocalNode::with], but it may have been discarded in
+    /// the meantime (by a load nested inside a writer's walk through the debts).
+    fn node(&self) -> &'static Node {
+        match self.node.get() {
+            Some(node) => node,
+            None => {
+                let node = Node::get();
+                self.node.set(Some(node));
+                node
+            }
+        }
     }
 
     /// Confirm the helping transaction.
@@ -310,7 +334,7 @@ impl LocalNode {
         gen: usize,
         ptr: usize,
     ) -> Result<&'static Debt, (&'static Debt, usize)> {
-        let node = &self.node.get().expect("LocalNode::with ensures it is set");
+        let node = self.node();
         debug_assert_eq!(node.in_use.load(Relaxed), NODE_USED);
         let slot = node.helping_slot();
         node.helping
@@ -328,7 +352,7 @@ impl LocalNode {
         T: RefCnt,
         R: Fn() -> T,
     {
-        let node = &self.node.get().expect("LocalNode::with ensures it is set");
+        let node = self.node();
         debug_assert_eq!(node.in_use.load(Relaxed), NODE_USED);
         node.helping.help(&who.helping, storage_addr, replacement)
     }
